@@ -2,6 +2,7 @@ package org
 
 import (
 	"context"
+	"strings"
 
 	"github.com/asaskevich/govalidator"
 	"github.com/invopop/gobl/cbc"
@@ -43,17 +44,30 @@ func (i *Inbox) Normalize(normalizers tax.Normalizers) {
 		return
 	}
 	uuid.Normalize(&i.UUID)
-	code := i.Code.String()
-	if govalidator.IsEmail(code) {
-		i.Email = code
-		i.Code = ""
-	} else if govalidator.IsURL(code) {
-		i.URL = code
-		i.Code = ""
+	if !i.moveAddressFromCode(strings.TrimSpace(i.Code.String())) {
+		// what is left after normalising the code may only now look like an
+		// address ("example.com " with a trailing blank): decide here, not on
+		// the next calculation
+		i.Code = cbc.NormalizeCode(i.Code)
+		i.moveAddressFromCode(i.Code.String())
 	}
 	i.Scheme = cbc.NormalizeAlphanumericalCode(i.Scheme)
-	i.Code = cbc.NormalizeCode(i.Code)
 	normalizers.Each(i)
+}
+
+// moveAddressFromCode moves a code that is an email address or a URL to the
+// member meant for it and reports whether it did.
+func (i *Inbox) moveAddressFromCode(code string) bool {
+	switch {
+	case govalidator.IsEmail(code):
+		i.Email = code
+	case govalidator.IsURL(code):
+		i.URL = code
+	default:
+		return false
+	}
+	i.Code = ""
+	return true
 }
 
 // Validate ensures the inbox's fields look good.
